@@ -241,6 +241,9 @@ class World:
         self.steps = 0
         self.initialised = set()
         self.funcobjs = {}
+        # the thread's current decimal context is process state too: every world has its own (installed whenever code of this
+        # world is interpreted), so that a rounding mode left behind by one call is seen by the next call of the same world only
+        self.decimal_context = _decimal.Context()
 
 
 class ExcRaised(Exception):
@@ -387,6 +390,15 @@ class Interp:
 
     # -- statements ------------------------------------------------------
     def run(self, stmts):
+        if self.depth == 0 and not getattr(self.world, '_running', 0) and _decimal.getcontext() is not self.world.decimal_context:
+            _decimal.setcontext(self.world.decimal_context)         # entering code of this world from the outside
+        self.world._running = getattr(self.world, '_running', 0) + 1
+        try:
+            return self._run(stmts)
+        finally:
+            self.world._running -= 1
+
+    def _run(self, stmts):
         try:
             self.block(stmts)
         except _Break:
@@ -1872,6 +1884,19 @@ class Interp:
                     return self.call_models[key_](inst)
                 return self._inline(cm_, val_, [inst], {}, self_class=cref)
             return BoundMethod(inst, cm_, val_, cref)
+        if isinstance(val_, ast.Call) and isinstance(val_.func, (ast.Name, ast.Attribute)) \
+                and self.a.res.resolve(val_.func, cm_) == 'ext:dataclasses.field':
+            # a dataclass field read on an instance that was not built by its constructor: the declared default
+            for kw_ in val_.keywords:
+                if kw_.arg == 'default':
+                    return Interp(self.a, cm_, {}, world=self.world, call_models=self.call_models, inline_pkg=True).ev(kw_.value)
+                if kw_.arg == 'default_factory':
+                    made_ = Interp(self.a, cm_, {}, world=self.world, call_models=self.call_models, inline_pkg=True).ev(
+                        ast.copy_location(ast.Call(func=kw_.value, args=[], keywords=[]), val_))
+                    if isinstance(inst, Rec):
+                        inst.f[attr] = made_
+                    return made_
+            raise ExcRaised(Ref('builtin:AttributeError'))
         if val_ is not None and not isinstance(val_, ast.ClassDef):
             try:
                 v_ = self.a.folder.fold(val_, cm_, None, cref)
